@@ -52,15 +52,18 @@ def run(chk):
         else:
             chk.violation("C20.record", st, "for cb in self: ... await ctx.__aenter__(); self._exits.append(ctx)", "", "contexts are not started in registration order / recorded per iteration")
     # ---- exits -----------------------------------------------------------------------------------------------------
-    loops = [f for f in ast.walk(cu.node) if isinstance(f, ast.For)]
-    if loops and norm.raw(loops[0].iter) == "reversed(self._exits)":
+    loops = [f for f in ast.walk(cu.node) if isinstance(f, (ast.For, ast.While))]
+    consuming = bool(loops) and isinstance(loops[0], ast.While) and norm.raw(loops[0].test) == "self._exits" and bool(list(M.find(loops[0], "$I = self._exits.pop()")))
+    if loops and isinstance(loops[0], ast.For) and norm.raw(loops[0].iter) == "reversed(self._exits)":
         chk.ok("C20.exits", loops[0], "exits run in reverse order of startup")
+    elif consuming:
+        chk.ok("C20.exits", loops[0], "exits run in reverse order of startup (last recorded context popped first; a context is forgotten before it is exited)")
     else:
         chk.violation("C20.exits", cu, "for it in reversed(self._exits)", "", "cleanup contexts are not exited in reverse order")
     ex = [a for a in prog.awaits_in(cu.node) if "__aexit__" in norm.raw(a)]
     if ex:
         hs = [h for _t, h in K.enclosing_try_handlers(ex[0])]
-        per_iter = hs and any(x is loops[0] for x in prog.enclosing(hs[0], (ast.For,))) if loops else False
+        per_iter = hs and any(x is loops[0] for x in prog.enclosing(hs[0], (ast.For, ast.While))) if loops else False
         types = {t for h in hs for t in PC.handler_types(h)}
         if per_iter and {"Exception", "asyncio.CancelledError"} <= types and any(M.contains(h, "errors.append($E)") for h in hs):
             chk.ok("C20.exits", ex[0], "each __aexit__ runs in its own try: one failing cleanup does not prevent the others")
@@ -73,11 +76,16 @@ def run(chk):
             chk.violation("C20.exits", cu, "if errors: raise ...", "after the loop", "cleanup errors are raised inside the loop or dropped")
     else:
         chk.violation("C20.exits", cu, "await it.__aexit__(None, None, None)", "", "contexts are never exited")
-    K.owners(chk, "C20.exits", repo, [APP], "_exits", {"CleanupContext.__init__": "creates", "CleanupContext._on_startup": "records a started context"}, "the list of started contexts has one recorder", classes=("CleanupContext",))
+    K.owners(chk, "C20.exits", repo, [APP], "_exits", {"CleanupContext.__init__": "creates", "CleanupContext._on_startup": "records a started context", "CleanupContext._on_cleanup": "forgets a context when exiting it"}, "the list of started contexts has one recorder", classes=("CleanupContext",))
     # ---- fallback ---------------------------------------------------------------------------------------------------------
     ac = repo.func(APP, "Application.cleanup")
-    fb = K.exprs(ac, "self._cleanup_ctx._on_cleanup(self)")
-    if fb and PC.has_lit(PC.pc(fb[0][0]), "self.on_cleanup.frozen", False) is not None and K.exprs(ac, "self.on_cleanup.send(self)"):
+    def exits_own(call, depth=0):
+        if M.match(M.compile_pat("self._cleanup_ctx._on_cleanup(self)"), call) is not None:
+            return True
+        t = prog.resolve_call(repo, call)
+        return t is not None and depth < 2 and t.cls is ac.cls and any(exits_own(c, depth + 1) for c in prog.calls_in(t.node))
+    fb = [(c, None) for c in prog.calls_in(ac.node) if exits_own(c) and PC.has_lit(PC.pc(c), "self.on_cleanup.frozen", False) is not None]
+    if fb and K.exprs(ac, "self.on_cleanup.send(self)"):
         chk.ok("C20.fallback", fb[0][0], "Application.cleanup(): if startup failed before the signals were frozen the started contexts are still exited")
     else:
         chk.violation("C20.fallback", ac, "else: await self._cleanup_ctx._on_cleanup(self)", "!(self.on_cleanup.frozen)", "after a failed startup Application.cleanup() exits no context")
@@ -118,6 +126,58 @@ def run(chk):
             chk.violation("C20.order", cs, K.short(cs), "unconditional", "application cleanup is skipped when the server was never created (failed startup)")
     else:
         chk.violation("C20.order", bc, " < ".join(seq), str(lines), "shutdown steps are missing or out of order (connections are closed before/after the wrong phase)")
+    # ---- hooks: a failing user shutdown hook must not skip the drain nor the application cleanup -------------------------------------
+    gb = cfg_of(bc.node)
+    hook = K.nodes_matching(bc, "self.shutdown()")
+    if not hook:
+        raise AnalysisError("C20.hooks: `await self.shutdown()` not found in BaseRunner.cleanup")
+    for via_pat, what, miss in (("self._cleanup_server()", "application cleanup (exit of the cleanup contexts)", "try: ... finally: await self._cleanup_server()"),
+                                ("self._server.shutdown(...)", "the connection drain/close", "try: await self.shutdown() finally: await self._server.shutdown(...)")):
+        vias = K.nodes_matching(bc, via_pat)
+        K.must_pass(chk, "C20.hooks", bc, None, lambda n, vias=vias: n in vias, f"BaseRunner.cleanup(): when an on_shutdown handler raises, {what} still runs",
+                    model=ALL, start_edges=[(hook[0], "x-await"), (hook[0], "x-call")], construct="await self.shutdown()", missing=miss)
+    # ---- subapps: contexts of sub-applications ----------------------------------------------------------------------------------------
+    reg = repo.func(APP, "Application._reg_subapp_signals")
+    wired = {c.args[0].value for c in prog.calls_in(reg.node, nested=True) if isinstance(c.func, ast.Name) and c.func.id == "reg_handler" and c.args and isinstance(c.args[0], ast.Constant)}
+    if {"on_startup", "on_cleanup"} <= wired:
+        chk.ok("C20.subapps", reg, "a sub-application's startup and cleanup (hence its cleanup contexts) are driven by the parent's signals")
+    else:
+        chk.violation("C20.subapps", reg, "reg_handler('on_startup'); reg_handler('on_cleanup')", f"wired: {sorted(wired)}", "sub-application contexts are not started / exited with the parent")
+    # (a) failed startup: the fallback of Application.cleanup must reach the sub-applications whose startup had completed
+    def reaches_subapps(fn, depth=0):
+        if any(isinstance(n, ast.Attribute) and n.attr == "_subapps" for n in ast.walk(fn.node)):
+            return True
+        return depth < 2 and any((t := prog.resolve_call(repo, c)) is not None and t.cls is fn.cls and reaches_subapps(t, depth + 1) for c in prog.calls_in(fn.node))
+    fbn = [n for n in ast.walk(ac.node) if isinstance(n, ast.If) and "on_cleanup.frozen" in norm.raw(n.test)]
+    if not fbn:
+        chk.violation("C20.subapps", ac, "if self.on_cleanup.frozen: ... else: ...", "", "no fallback for a failed startup")
+    else:
+        branch = fbn[0].orelse if PC.has_lit(norm.cnf_raw(fbn[0].test, True), "self.on_cleanup.frozen", True) is not None else fbn[0].body
+        holder = ast.Module(body=branch, type_ignores=[])
+        direct = any(isinstance(n, ast.Attribute) and n.attr == "_subapps" for n in ast.walk(holder))
+        via = any((t := prog.resolve_call(repo, c)) is not None and t.cls is ac.cls and reaches_subapps(t) for c in ast.walk(holder) if isinstance(c, ast.Call))
+        if direct or via:
+            chk.ok("C20.subapps", fbn[0], "after a failed startup Application.cleanup() also exits the started contexts of sub-applications")
+        else:
+            chk.violation("C20.subapps", branch[0] if branch else ac, K.short(branch[0]) if branch else "else:", "for subapp in self._subapps: <exit its started contexts>",
+                          "a startup step fails after a sub-application's contexts were entered (a later on_startup handler, or a later context of the sub-application): Application.cleanup() exits only the parent's own contexts, the sub-application's started contexts are never exited")
+    # (b) normal cleanup: one failing receiver must not keep the contexts of other applications from being exited
+    ga = cfg_of(ac.node)
+    sends = K.nodes_matching(ac, "self.on_cleanup.send(self)")
+    if "on_cleanup" in wired and sends:
+        def exits_all(n):
+            return any((t := prog.resolve_call(repo, c)) is not None and t.cls is ac.cls and reaches_subapps(t) and "_on_cleanup" in norm.raw(t.node) for c in K.node_calls(n))
+        per_receiver = [f for f in ast.walk(ac.node) if isinstance(f, (ast.For, ast.AsyncFor)) and "on_cleanup" in norm.raw(f.iter)]
+        p = ga.find_path(None, ga.is_exit, exits_all, ALL, [(sends[0], "x-await"), (sends[0], "x-call")])
+        if p is None and not consuming:
+            chk.violation("C20.isolate", sends[0].ast, K.short(sends[0].ast), "CleanupContext._on_cleanup forgets a context before exiting it",
+                          "contexts are exited by the signal and again by the fallback that follows it: hand-written context managers have their exit code run twice")
+        elif p is None or per_receiver:
+            chk.ok("C20.isolate", sends[0].ast, "when a cleanup receiver raises, the started contexts of every (sub-)application are still exited, each at most once")
+        else:
+            chk.violation("C20.isolate", sends[0].ast, K.short(sends[0].ast), "try: await self.on_cleanup.send(self) finally: <exit the remaining started contexts>",
+                          "the cleanup contexts of the parent and of every sub-application are exited by different receivers of one Signal.send(), which stops at the first receiver that raises: a failing cleanup step of the parent (its contexts run first) leaves every sub-application's contexts un-exited",
+                          path=ga.fmt_path(p))
     sh = repo.func(PROTO, "RequestHandler.shutdown")
     gs = cfg_of(sh.node)
     tos = [w for w in ast.walk(sh.node) if isinstance(w, ast.AsyncWith) and any(norm.raw(it.context_expr) == "ceil_timeout(timeout)" for it in w.items)]
